@@ -3,7 +3,7 @@
    Tables, dispatch bounds and low-end constants come from gen/Tables.v = the current source text of /repo. *)
 From Coq Require Import ZArith.
 Require Import C12.gen.Tables.
-From C12 Require Import PrimeB Model ProofsSweep ProofsTable ProofsTab12 ProofsPrimes16 ProofsPPTable ProofsNext ProofsFactor ProofsDivisors ProofsDivisorsNoDup ProofsPower ProofsComplete ProofsSetForms ModelScript ProofsScript ProofsDecide ModelErat ProofsErat ProofsTerminate ProofsEratFull ProofsPowmod ModelFermat ProofsFermat.
+From C12 Require Import PrimeB Model ProofsSweep ProofsTable ProofsTab12 ProofsPrimes16 ProofsPPTable ProofsNext ProofsFactor ProofsDivisors ProofsDivisorsNoDup ProofsPower ProofsComplete ProofsSetForms ModelScript ProofsScript ProofsDecide ModelErat ProofsErat ProofsTerminate ProofsEratFull ProofsPowmod ModelFermat ProofsFermat ProofsFermatLittle ProofsMiller.
 Local Open Scope Z_scope.
 
 Theorem C12_isprime_exact_below_65536 : Isprime_table_stmt.          Proof. exact isprime_table. Qed.
@@ -68,8 +68,8 @@ Theorem C12_factor_in_place : Factor_inplace_stmt.                           Pro
 Print Assumptions C12_factor_in_place.
 Theorem C12_pollard_in_place : Pollard_inplace_stmt.                         Proof. exact pollard_inplace. Qed.
 Print Assumptions C12_pollard_in_place.
-Theorem C12_miller_accepts_primes_below_256_partial : Miller_partial_stmt.   Proof. exact miller_partial. Qed.
-Print Assumptions C12_miller_accepts_primes_below_256_partial.
+Theorem C12_miller_accepts_every_prime : Miller_stmt.                        Proof. exact miller_correct. Qed.
+Print Assumptions C12_miller_accepts_every_prime.
 Theorem C12_miller_witness_zero : Miller_zero_stmt.                          Proof. exact miller_zero. Qed.
 Print Assumptions C12_miller_witness_zero.
 Theorem C12_isprimepower_decides : Isprimepower_decides_stmt.                Proof. exact isprimepower_decides. Qed.
